@@ -1180,7 +1180,7 @@ def case_v2_actuator(mon, rng, c):
 def floors(merged, tier):
     out = []
     reach = merged["reach"]
-    scale = 1 if tier == "quick" else 20
+    scale = 3 if tier == "quick" else 200  # ~10x under what the workload normally reaches
     for name, need in (("buy_glp", 100), ("sell_glp", 100), ("deposit", 100), ("withdraw", 100), ("v1_round_trip", 40),
                        ("v2_round_trip", 40), ("oversell_glp", 5), ("overdraw_gm", 5), ("reward_checked_with_holding", 10),
                        ("v1_actuator_runs", 2), ("v2_actuator_runs", 2)):
@@ -1193,7 +1193,10 @@ def floors(merged, tier):
 
     for prefix, need in (("v1/buy/improve", 5), ("v1/buy/worsen", 5), ("v1/sell/improve", 5), ("v1/sell/worsen", 5),
                          ("v1/buy/zero-target", 1), ("v1/dec6", 5), ("v1/dec8", 5), ("v2/dep/pos/", 10), ("v2/dep/neg/", 10),
-                         ("v2/dep/pos/same-side/capped", 2), ("v2/dep/neg/crossover", 2), ("v2/dep/virtual-inventory-decides", 2)):
-        if tot(prefix) < need:
-            out.append(f"class {prefix}* observed {tot(prefix)} times (< {need})")
+                         ("v2/dep/pos/same-side/capped", 2), ("v2/dep/neg/crossover", 2), ("v2/dep/virtual-inventory-decides", 2),
+                         ("v1/buy/improve-cross", 2), ("v1/sell/improve-cross", 2), ("v1/buy/worsen-capped", 5),
+                         ("v2/dep/pos/crossover", 2), ("v2/rt/pos/", 5), ("v2/rt/neg/", 5), ("v2/wd/all", 10), ("v2/wd/part", 10),
+                         ("v1/oversell/", 2), ("v2/overdraw/", 2)):
+        if tot(prefix) < need * scale:
+            out.append(f"class {prefix}* observed {tot(prefix)} times (< {need * scale})")
     return out
